@@ -104,7 +104,10 @@ def run(rep, tier, seed, pa):
             spec = spec[:4] + ("abs",) + spec[5:]
         mode = rng.choice(["exact", "exact", "fast", "soft"])
         sname = rng.choice(["stat", "shuffle-int", "shuffle-float"])
-        prec = rng.choice([None, None, 0.9, 0.5, 0.3, 0.2, 0.1, "low", "medium", "high"] if tier == "thorough" else [None, None, 0.9, 0.5, 0.3, 0.2, "low"])
+        # named levels: "high" (1 %) asks for thousands of samples, so it is drawn rarely and only in thorough
+        prec = rng.choice([None, None, 0.9, 0.5, 0.3, 0.2, 0.1, "low", "low", "medium"] if tier == "thorough" else [None, None, 0.9, 0.5, 0.3, 0.2, "low"])
+        if tier == "thorough" and rng.random() < 0.02:
+            prec = "high"
         n_samples = rng.choice([1, 2, 3, 5, 8])
         names = gen.ANNOTATORS[:n]
         gt = None
